@@ -106,8 +106,19 @@ pub fn finish_sweep(prop: &mut dyn Prop, tier: Tier, rr: &RunResult) -> i32 {
         // determinism: replay the first occurrence in a fresh process; the signature must reproduce
         let (again, desc) = crate::runner::replay_in_subprocess(&id, tier, *idx).unwrap_or_else(|e| (format!("replay-error:{}", e), None));
         let crash_like = sig.starts_with("killed-by-signal") || sig == "hang" || sig == "huge-allocation" || sig.starts_with("exit-");
-        let reproduced = &again == sig || (crash_like && again.starts_with("crash:"));
-        let path = write_replay(&id, tier, sig, json!({"idx": idx, "case": desc.unwrap_or_else(|| prop.describe(*idx)), "detail": detail, "occurrences": count, "replayed_sig": again}));
+        let mut reproduced = &again == sig || (crash_like && again.starts_with("crash:"));
+        // not reproduced from a fresh process: does it depend on the cases the worker executed before it?
+        let mut history: Option<Vec<u64>> = None;
+        if !reproduced && !crash_like {
+            history = crate::runner::find_history(&id, tier, *idx, rr.workers.max(1), sig);
+            reproduced = history.is_some();
+        }
+        let mut body = json!({"idx": idx, "case": desc.unwrap_or_else(|| prop.describe(*idx)), "detail": detail, "occurrences": count, "replayed_sig": again});
+        if let Some(h) = &history {
+            body["history"] = json!(h);
+            body["history_note"] = json!("the case holds in a fresh process and fails after the listed earlier cases were executed in the same process: state survives from one connection / call to the next");
+        }
+        let path = write_replay(&id, tier, sig, body);
         viol_json.push(json!({"sig": sig, "first_idx": idx, "count": count, "detail": detail, "replay": path, "reproduced": reproduced}));
         if !reproduced {
             println!("MACHINERY-ERROR property={} case {} gave '{}' then '{}' on replay (nondeterminism); replay={}", id, idx, sig, again, path);
@@ -122,6 +133,9 @@ pub fn finish_sweep(prop: &mut dyn Prop, tier: Tier, rr: &RunResult) -> i32 {
             println!("  sig: {}", sig);
             println!("  detail: {}", detail.chars().take(600).collect::<String>());
             println!("  occurrences: {} (first case index {})", count, idx);
+            if let Some(h) = &history {
+                println!("  history-dependent: holds in a fresh process, fails after case(s) {:?} ran in the same process", &h[..h.len().min(8)]);
+            }
             unlisted += 1;
         }
     }
